@@ -1,0 +1,43 @@
+//! Mutex whose blocking acquisition is announced to the verification hooks
+//! (`--cfg oxidd_verif` only). Apart from that it is `parking_lot::Mutex`.
+
+use parking_lot::lock_api;
+
+use oxidd_core::verif;
+
+pub struct HookedRawMutex(parking_lot::RawMutex);
+
+unsafe impl lock_api::RawMutex for HookedRawMutex {
+    #[allow(clippy::declare_interior_mutable_const)]
+    const INIT: Self = Self(parking_lot::RawMutex::INIT);
+
+    type GuardMarker = <parking_lot::RawMutex as lock_api::RawMutex>::GuardMarker;
+
+    #[inline]
+    fn lock(&self) {
+        verif::acquire(verif::class::OTHER_LOCK, self as *const Self as usize, &|| {
+            !self.0.is_locked()
+        });
+        self.0.lock()
+    }
+
+    #[inline]
+    fn try_lock(&self) -> bool {
+        verif::point(verif::class::OTHER_LOCK, self as *const Self as usize);
+        self.0.try_lock()
+    }
+
+    #[inline]
+    unsafe fn unlock(&self) {
+        // SAFETY: upheld by the caller
+        unsafe { self.0.unlock() }
+    }
+
+    #[inline]
+    fn is_locked(&self) -> bool {
+        self.0.is_locked()
+    }
+}
+
+pub type Mutex<T> = lock_api::Mutex<HookedRawMutex, T>;
+pub type MutexGuard<'a, T> = lock_api::MutexGuard<'a, HookedRawMutex, T>;
